@@ -229,6 +229,9 @@ func checkC05(ctx *Ctx, r *Report, tier string) {
 	// T8 / pairing
 	r.check("T8", "mcToTriangles|edge-vertex-from-its-own-corners", kf.pos, kf.pairOK && kf.interpA == 0 && kf.interpB == 1 || kf.pairOK && kf.interpA == 1 && kf.interpB == 0, kf.pairDetail)
 	interpSymmetry(ctx, r, "render", "mcInterpolate", "T8")
+	if kf2 := ctx.ssaFunc("render", "mcToTriangles"); kf2 != nil {
+		everyFlaggedEdgeInterpolated(ctx, r, "T10", kf2, "mcInterpolate", 12)
+	}
 	r.floor("T8", 2)
 
 	if tb == nil || ucm == nil || !validBits(ucm.bits, 3) {
